@@ -13,7 +13,7 @@ int valid_write (string path, mixed who, string fn) { return 1; }
 string object_name (object ob) { return ob->vname (); }
 
 // safe_apply made by the compiler's error logging; DECLARED WITHOUT PARAMETERS although the driver passes two
-void log_error () { "/c05/ctl"->on_log (); }
+void log_error (string f, string m) { VL ("compile " + m); }
 
 string error_handler (mapping m, int caught) {
   string e = m["error"];
